@@ -2195,6 +2195,39 @@ M('C09', 'rewritten-dec-224', TY, _DEC_DEF, _DEC_METHOD.replace("if first < 224:
 M('C09', 'rewritten-enc-limit-8383', TY, _ENC_DEF, _ENC_STATIC.replace("_TWO_OCTET_LIMIT = 8384", "_TWO_OCTET_LIMIT = 8383"), 'C09.1')
 M('C09', 'rewritten-enc-high-octet', TY, _ENC_DEF, _ENC_STATIC.replace("(n >> 8) + 192", "(n >> 8) | 128"), 'C09.1')
 
+# --- C09 second round: value-dependent special cases, `or` defaults, cached values, widths wrong only above a threshold, fixed too-small widths
+M('C09', 'count-zero-means-default', FL, "        return (16 + (self._count & 15)) << ((self._count >> 4) + 6)", "        c = self._count or self.halg.tuned_count\n        return (16 + (c & 15)) << ((c >> 4) + 6)", 'C09.4')
+M('C09', 'count-zero-means-96', FL, "        return (16 + (self._count & 15)) << ((self._count >> 4) + 6)", "        c = self._count or 96\n        return (16 + (c & 15)) << ((c >> 4) + 6)", 'C09.4')
+M('C09', 'count-first-store-wins', FL, "            raise ValueError(\"count must be between 0 and 256\")\n        self._count = val", "            raise ValueError(\"count must be between 0 and 256\")\n        if getattr(self, '_count', 0) == 0:\n            self._count = val", 'C09.4')
+M('C09', 'count-special-255', FL, "        return (16 + (self._count & 15)) << ((self._count >> 4) + 6)", "        if self._count == 255:\n            return 65011712 - 1\n        return (16 + (self._count & 15)) << ((self._count >> 4) + 6)", 'C09.4')
+M('C09', 'enc-special-1000', TY, "            elif 8384 > nl:\n                elen", "            elif nl == 1003:\n                return b'\\xFF' + Header.int_to_bytes(nl, 4)\n\n            elif 8384 > nl:\n                elen", 'C09.1')
+M('C09', 'enc-five-width-3-below-2-24', TY, "            return b'\\xFF' + Header.int_to_bytes(nl, 4)", "            return b'\\xFF' + Header.int_to_bytes(nl, 4 if nl >= (1 << 16) else 3)", 'C09.1')
+M('C09', 'enc-five-fixed-to-bytes-3', TY, "            return b'\\xFF' + Header.int_to_bytes(nl, 4)", "            return b'\\xFF' + nl.to_bytes(3, 'big')", 'C09.1')
+M('C09', 'enc-two-octet-to-bytes-1', TY, "                return Header.int_to_bytes(elen, 2)", "                return (elen & 0xFF).to_bytes(1, 'big') if nl > 8000 else Header.int_to_bytes(elen, 2)", 'C09.1')
+M('C09', 'dec-length-or-1', TY, "    def length(self):\n        return self._len", "    def length(self):\n        return self._len or 1", 'C09.1')
+M('C09', 'dec-five-octet-capped', TY, "                    return (self.bytes_to_int(b[offset + 1:offset + 5]), 5, False)", "                    return (self.bytes_to_int(b[offset + 1:offset + 5]) & 0x7FFFFFFF, 5, False)", 'C09.1')
+M('C09', 'dec-partial-exponent-capped', TY, "                    return (1 << (fo & 0x1f), 1, True)", "                    return (1 << min(fo & 0x1f, 24), 1, True)", 'C09.1')
+M('C09', 'llen-cached', TY, "        lf = self._lenfmt\n\n        if lf == 1:", "        if getattr(self, '_llen_cache', None) is not None:\n            return self._llen_cache\n        self._llen_cache = None\n        lf = self._lenfmt\n\n        if lf == 1:",
+  'C09.1', more=[(TY, "            else:\n                return 5\n", "            else:\n                self._llen_cache = 5\n                return 5\n")])
+M('C09', 'llen-old-or-1', TY, "            llen = self._llen\n            while 0 < llen < 4", "            llen = self._llen or 1\n            while 0 < llen < 4", 'C09.2')
+M('C09', 'llen-old-widen-once', TY, "            while 0 < llen < 4 and self.length >= (1 << (8 * llen)):\n                llen *= 2\n            return llen", "            if 0 < llen < 4 and self.length >= (1 << (8 * llen)):\n                llen *= 2\n            return llen", 'C09.2')
+M('C09', 'llen-old-sticky', TY, "                llen *= 2\n            return llen", "                llen *= 2\n            self._llen = llen\n            return llen", 'C09.2')
+M('C09', 'old-enc-width-capped-2', TY, "            return Header.int_to_bytes(nl, llen) if llen > 0 else b''", "            return Header.int_to_bytes(nl, min(llen, 2) if nl < 65536 else llen) if llen > 0 else b''", 'C09.2')
+M('C09', 'mpi-zero-bits-one-octet', PT, "            fl = ((MPIs.bytes_to_int(num[:2]) + 7) // 8)", "            fl = ((MPIs.bytes_to_int(num[:2]) + 7) // 8) or 1", 'C09.3')
+M('C09', 'mpi-writer-fixed-to-bytes', PT, "        return MPIs.int_to_bytes(self.bit_length(), 2) + MPIs.int_to_bytes(self, self.byte_length())", "        return MPIs.int_to_bytes(self.bit_length(), 2) + int(self).to_bytes(256, 'big')[-self.byte_length():]", 'C09.3')
+M('C09', 'mpi-count-above-2048-truncated', PT, "            fl = ((MPIs.bytes_to_int(num[:2]) + 7) // 8)", "            fl = min((MPIs.bytes_to_int(num[:2]) + 7) // 8, 512)", 'C09.3')
+M('C09', 'sub-typeid-special-127', ST, "        self._typeid = val & 0x7f", "        self._typeid = val & 0x7f if val != 0xff else 0", 'C09.6')
+M('C09', 'sub-critical-cached-first', ST, "    def critical_bool(self, val):\n        self._critical = val", "    def critical_bool(self, val):\n        self._critical = getattr(self, '_critical', False) or val", 'C09.6')
+M('C09', 'int-to-bytes-capped-8', TY, "        blen = max(minlen, PGPObject.int_byte_len(i), 1)\n", "        blen = min(max(minlen, PGPObject.int_byte_len(i), 1), max(minlen, 8))\n", 'C09.7')
+M('C09', 'bytes-to-int-first-8', TY, "        return int.from_bytes(b, order)", "        return int.from_bytes(b[:8], order)", 'C09.7')
+M('C09', 'tag-new-format-mask-on-write', PT, "        tag |= (self.tag) if self._lenfmt else", "        tag |= (self.tag & 0x1F) if self._lenfmt else", 'C09.8')
+M('C09', 'tag-special-old-type3-as-4', PT, "{1: 0, 2: 1, 4: 2, 0: 3}[self.llen]", "{1: 0, 2: 1, 4: 2, 0: 2}[self.llen]", 'C09.8')
+M('C09', 'partial-chain-max-2', TY, "                while partial:\n                    part_len, size, partial = _parse_len(b, total)", "                rounds = 0\n                while partial and rounds < 2:\n                    rounds += 1\n                    part_len, size, partial = _parse_len(b, total)", 'C09.8')
+M('C09', 'reader-local-relabelled', PK, "    def mtime_int(self, val):\n        self.mtime = datetime.fromtimestamp(val, timezone.utc)", "    def mtime_int(self, val):\n        self.mtime = datetime.fromtimestamp(val).replace(tzinfo=timezone.utc)", 'C09.5')
+M('C09', 'reader-other-zone', PK, "    def created_int(self, val):\n        self.created = datetime.fromtimestamp(val, timezone.utc)", "    def created_int(self, val):\n        self.created = datetime.fromtimestamp(val, tz=timezone(timedelta(hours=1)))", 'C09.5')
+M('C09', 'reader-seconds-plus-offset', SS, "    def created_int(self, val):\n        self.created = datetime.fromtimestamp(val, timezone.utc)", "    def created_int(self, val):\n        self.created = datetime.fromtimestamp(val + time.timezone, timezone.utc)", 'C09.5')
+T('C09', 'twin-reader-aware-utc-astimezone', SS, "    def created_int(self, val):\n        self.created = datetime.fromtimestamp(val, timezone.utc)", "    def created_int(self, val):\n        self.created = datetime.fromtimestamp(int(val), tz=timezone.utc).astimezone(timezone.utc)")
+
 # =============================================================================================== C20
 M('C20', 'ops-loop-forward', PGP, "            for sig in reversed(self._signatures):\n                ops = sig.make_onepass()", "            for sig in self._signatures:\n                ops = sig.make_onepass()", 'C20.2')
 M('C20', 'trailing-sigs-reversed', PGP, "                yield self._mdc\n\n            for sig in self._signatures:\n                yield sig", "                yield self._mdc\n\n            for sig in reversed(self._signatures):\n                yield sig", 'C20.2')
